@@ -550,6 +550,64 @@ fn e2e_stream_case(prop: &str, idx: u64, tmproot: &std::path::Path) -> CaseRec {
     }
 }
 
+/// the configured environment across the test cases of one document: the value a test case sees for a variable is
+/// the one of the highest layer that sets it for THAT test case (inline, then the document's defaults); only when
+/// no layer sets it, it is what the earlier test cases left in the shell (C12). An earlier test case's configured or
+/// assigned value must not win over the configuration of a later one.
+/// idx: defaults (2) x inline of test 1 (3) x what test 1 does to the variable (4) x inline of test 2 (3)
+fn e2e_env_sequence_case(prop: &str, idx: u64, tmproot: &std::path::Path) -> CaseRec {
+    let mut r = idx;
+    let mut take = |n: u64| {
+        let v = r % n;
+        r /= n;
+        v as usize
+    };
+    let defaults = [None, Some("from-defaults")][take(2)];
+    let inline1 = [None, Some("one"), Some("two words $x 'q'")][take(3)];
+    let action = ["true", "SEQ_V=assigned", "export SEQ_V=exported", "unset SEQ_V"][take(4)];
+    let inline2 = [None, Some("one"), Some("other")][take(3)];
+    let dir = tmproot.join(format!("envseq-{idx}"));
+    let _ = std::fs::remove_dir_all(&dir);
+    std::fs::create_dir_all(dir.join("tmp")).unwrap();
+    let q = |v: &str| serde_json::to_string(v).unwrap();
+    let cfg = |v: Option<&str>| v.map(|v| format!(" {{environment: {{SEQ_V: {}}}}}", q(v))).unwrap_or_default();
+    let mut doc = String::new();
+    if let Some(d) = defaults {
+        doc.push_str(&format!("---\ndefaults:\n  environment:\n    SEQ_V: {}\n---\n\n", q(d)));
+    }
+    let probe = "printf 'V=%s\\n' \"${SEQ_V-unset}\"";
+    doc.push_str(&format!("# t1\n\n```scrut{}\n$ {probe}; {action}\nnever-matches\n```\n\n# t2\n\n```scrut{}\n$ {probe}\nnever-matches\n```\n", cfg(inline1), cfg(inline2)));
+    let p = dir.join("doc.md");
+    std::fs::write(&p, &doc).unwrap();
+    let out = std::process::Command::new(scrut_bin()).arg("test").arg("-r").arg("json").arg(&p).current_dir(&dir).env("TMPDIR", dir.join("tmp")).env_remove("SEQ_V").output().expect("run scrut");
+    let stdout = String::from_utf8_lossy(&out.stdout).to_string();
+    let json: Option<serde_json::Value> = stdout.find('[').and_then(|p| serde_json::from_str(&stdout[p..]).ok());
+    let seen: Vec<Option<String>> = (0..2).map(|i| json.as_ref().and_then(|j| j.pointer(&format!("/{i}/output/stdout")).and_then(|v| v.as_str()).map(|s| s.trim_end_matches('\n').to_string()))).collect();
+    // what the property says
+    let c1 = inline1.or(defaults);
+    let after1: Option<String> = match action {
+        "SEQ_V=assigned" => Some("assigned".into()),
+        "export SEQ_V=exported" => Some("exported".into()),
+        "unset SEQ_V" => None,
+        _ => c1.map(|s| s.to_string()),
+    };
+    let c2 = inline2.or(defaults);
+    let want1 = format!("V={}", c1.unwrap_or("unset"));
+    let want2 = format!("V={}", c2.map(|s| s.to_string()).or(after1).unwrap_or("unset".into()));
+    let mut fails = vec![];
+    if seen[0].as_deref() != Some(&want1) || seen[1].as_deref() != Some(&want2) {
+        fails.push(("C16:environment-sequence-e2e".to_string(), format!("document {:?}: the test cases see {:?}, expected [{want1:?}, {want2:?}] (exit {:?})", doc, seen, out.status.code())));
+    }
+    let _ = std::fs::remove_dir_all(&dir);
+    CaseRec {
+        op: format!("oracle-only envseq case=envseq.{idx}"),
+        impl_out: "oracle-only".into(),
+        oracle_fail: keep(prop, fails),
+        nontrivial: true,
+        tags: vec!["e2e-envseq".into(), format!("e2e-envseq:configured-second={}", c2.is_some()), format!("e2e-envseq:action={action}")],
+    }
+}
+
 pub fn run(ctx: &Ctx, prop: &str) {
     let seed = ctx.seed;
     // 1. one scalar key at a time: {unset, A, B}^4 over the four layers, for each of the 7 keys
@@ -631,6 +689,8 @@ pub fn run(ctx: &Ctx, prop: &str) {
     let tr = tmproot.clone();
     ctx.run_stream("e2e-keep-crlf-exhaustive", 54 * 3 * 2, true, |idx| Some(e2e_crlf_case(prop, idx, &tr)));
     let tr = tmproot.clone();
+    ctx.run_stream("e2e-environment-sequence-exhaustive", 2 * 3 * 4 * 3, true, |idx| Some(e2e_env_sequence_case(prop, idx, &tr)));
+    let tr = tmproot.clone();
     ctx.run_stream("e2e-output-stream-exhaustive", 3 * 2 * 4 * 4, true, |idx| Some(e2e_stream_case(prop, idx, &tr)));
     let _ = std::fs::remove_dir_all(&tmproot);
 }
@@ -648,7 +708,7 @@ pub fn replay(_prop: &str, op: &str) -> bool {
         }
         a
     };
-    if parts.first() == Some(&"effectiveflags") {
+    if parts.first() == Some(&"effectiveflags") || parts.first() == Some(&"oracle-only") {
         // end-to-end cases are regenerated from their index
         let tmproot = std::env::temp_dir().join(format!("scrut-verif-cfg-replay-{}", std::process::id()));
         std::fs::create_dir_all(&tmproot).unwrap();
@@ -656,6 +716,7 @@ pub fn replay(_prop: &str, op: &str) -> bool {
         let c = match tag.split_once('.') {
             Some(("crlf", i)) => e2e_crlf_case("C16", i.parse().unwrap_or(0), &tmproot),
             Some(("stream", i)) => e2e_stream_case("C16", i.parse().unwrap_or(0), &tmproot),
+            Some(("envseq", i)) => e2e_env_sequence_case("C16", i.parse().unwrap_or(0), &tmproot),
             _ => return false,
         };
         let _ = std::fs::remove_dir_all(&tmproot);
